@@ -36,6 +36,7 @@ STRENGTHENED = {
     "C18-D": "missed: no character that str.isnumeric()/\\w accept but Python does not -> ² and ₁ added to the adversarial alphabet",
     "C19-C": "missed: no taint text with a backslash before a double quote -> quote-breakout taint literal and input",
     "C19-D": "missed: inputs were numbers, lists or expressions -> valid Python literals without a Vyxal value (None, ..., 1e999, sets, bytes)",
+    "C03-C": "missed: no context had a later comment after closers that a payload could pair with -> contexts with a structure and a second comment after the literal",
     "C16-C": "missed: the grading law accepted any order among equal items -> grades are compared with the stable grade (ties keep their original order, as in APL)",
     "C14-C": "missed: the item at index n was read from the cache after has_ind -> a third way of taking the prefix: real indexing result[n]",
 }
